@@ -139,9 +139,36 @@ func (t *tlog) remove(i, n int) {
 	t.ch = append(t.ch[:i], t.ch[i+n:]...)
 }
 
-func (t *tlog) bytes(ser serialization.Serializer) []byte {
+func (t *tlog) bytes(ser serialization.Serializer) []byte { return t.bytesFrom(ser, 0) }
+
+// commonPrefix counts the leading entries whose encoding is the original one.
+func (t *tlog) commonPrefix(orig [][]byte) int {
+	n := 0
+	for n < len(t.ch) && n < len(orig) && t.ch[n] != nil && len(t.ch[n]) == len(orig[n]) && (len(orig[n]) == 0 || &t.ch[n][0] == &orig[n][0]) {
+		n++
+	}
+	return n
+}
+
+// commonSuffix counts the trailing entries whose encoding is the original one (not overlapping the prefix).
+func (t *tlog) commonSuffix(orig [][]byte, prefix int) int {
+	n := 0
+	for n < len(t.ch)-prefix && n < len(orig)-prefix {
+		a, b := t.ch[len(t.ch)-1-n], orig[len(orig)-1-n]
+		if a == nil || len(a) != len(b) || len(b) == 0 || &a[0] != &b[0] {
+			break
+		}
+		n++
+	}
+	return n
+}
+
+func (t *tlog) bytesFrom(ser serialization.Serializer, from int) []byte { return t.bytesRange(ser, from, len(t.ch)) }
+
+func (t *tlog) bytesRange(ser serialization.Serializer, from, to int) []byte {
 	var b bytes.Buffer
-	for i, c := range t.ch {
+	for i := from; i < to; i++ {
+		c := t.ch[i]
 		if c == nil {
 			var eb bytes.Buffer
 			if err := ser.Encode(&eb, t.es[i]); err != nil {
@@ -317,17 +344,58 @@ type verdict struct {
 	failIdx int
 }
 
-// verifyStream is tool.Verify's loop over an in-memory stream: decode, ValidateEntry with both verifiers.
-func verifyStream(data []byte, ser serialization.Serializer, k *keys) (v verdict) {
-	idx := 0
+// vsnap is the complete state of a Validator (all its fields but the verifiers are exported).
+type vsnap struct {
+	prev []byte
+	buf  [][]byte
+	idx  int
+}
+
+// snapshots validates the untampered stream once and records the Validator state before every entry.
+func snapshots(data []byte, ser serialization.Serializer, k *keys) []vsnap {
+	dec := ser.NewDecoder(bytes.NewReader(data))
+	val := auditlog.NewValidator(k.edVerifier(), k.mlVerifier())
+	var out []vsnap
+	for {
+		out = append(out, vsnap{prev: val.PrevHash, buf: val.HashBuffer, idx: val.Index})
+		e, err := dec.Decode()
+		if err == io.EOF {
+			return out
+		}
+		must(err)
+		must(val.ValidateEntry(e))
+	}
+}
+
+// verifyStream is tool.Verify's loop (decode, ValidateEntry with both verifiers) over an in-memory
+// stream = mid ++ tail.  Two exact shortcuts keep thousands of cases affordable:
+//   - the first from.idx entries of the tampered stream are byte-identical to the untampered log,
+//     so the Validator resumes from the state it reaches after them (copied; Validator and
+//     decoders are deterministic) and the decoder starts at that entry boundary;
+//   - tail is the byte-identical rest of the untampered log starting at entry join.idx; if the
+//     Validator, after accepting the nmid entries of mid, is exactly in the state it has at that
+//     point of the untampered log (same index, previous hash and hash buffer), the rest is accepted
+//     as it was before.  nmid < 0 disables this (byte-level cases, where framing may be broken).
+// tool.Verify on the whole file is run for every accepted log (thorough; a sample in quick) and a
+// sample of the rejected ones, and must agree.
+func verifyStream(mid, tail []byte, nmid int, from, join vsnap, ser serialization.Serializer, k *keys) (v verdict) {
+	idx := from.idx
 	defer func() {
 		if p := recover(); p != nil {
 			v = verdict{false, "panic", idx}
 		}
 	}()
-	dec := ser.NewDecoder(bytes.NewReader(data))
+	dec := ser.NewDecoder(io.MultiReader(bytes.NewReader(mid), bytes.NewReader(tail)))
 	val := auditlog.NewValidator(k.edVerifier(), k.mlVerifier())
-	for {
+	val.PrevHash, val.Index = from.prev, from.idx
+	val.HashBuffer = append(make([][]byte, 0, auditlog.GroundingBlockSize), from.buf...)
+	if from.buf == nil && from.idx > 0 {
+		val.HashBuffer = nil
+	}
+	for n := 0; ; n++ {
+		if n == nmid && val.Index == join.idx && bytes.Equal(val.PrevHash, join.prev) && sameHashes(val.HashBuffer, join.buf) {
+			return verdict{true, "", -1}
+		}
 		e, err := dec.Decode()
 		if err != nil {
 			if err == io.EOF {
@@ -340,6 +408,18 @@ func verifyStream(data []byte, ser serialization.Serializer, k *keys) (v verdict
 		}
 		idx++
 	}
+}
+
+func sameHashes(a, b [][]byte) bool {
+	if len(a) != len(b) {
+		return false
+	}
+	for i := range a {
+		if !bytes.Equal(a[i], b[i]) {
+			return false
+		}
+	}
+	return true
 }
 
 // toolVerify runs the real tool.Verify on a file holding data.
@@ -370,7 +450,9 @@ type c27Ctx struct {
 	mid      int
 	workdir  string
 	thorough bool
-	whole    map[string][]byte // serializer -> the untampered stream
+	whole    map[string][]byte  // serializer -> the untampered stream
+	off      map[string][]int   // serializer -> byte offset of every entry (and the total length)
+	snap     map[string][]vsnap // serializer -> Validator state before every entry of the untampered stream
 }
 
 func (x *c27Ctx) idx(pos string) int {
@@ -403,8 +485,17 @@ func far(p, n int) int {
 	return p - (bs + 1)
 }
 
+// BinaryDecoder.readBytes allocates whatever a (tampered or misaligned) 32-bit length prefix says -
+// up to 4 GiB per string - before it notices that the data is not there.  Cases that can derail the
+// binary framing therefore run one at a time.
+var hugeAllocMu sync.Mutex
+
 func (x *c27Ctx) tamper(c *c27Case, worker int, nth int) event {
 	ser := serializerOf(c.Ser)
+	if c.Ser == "bin" && (c.Kind == "bytes" || c.Kind == "trunc" || c.Field == "type") {
+		hugeAllocMu.Lock()
+		defer hugeAllocMu.Unlock()
+	}
 	t := newTlog(x.L, c.Ser)
 	p := x.idx(c.Pos)
 	n := len(x.L.es)
@@ -529,13 +620,23 @@ func (x *c27Ctx) tamper(c *c27Case, worker int, nth int) event {
 		}
 	}
 
-	data := t.bytes(ser)
-	applied := !bytes.Equal(data, x.whole[c.Ser])
-	v := verifyStream(data, ser, x.k)
+	origCh, whole, offs := x.L.enc[c.Ser], x.whole[c.Ser], x.off[c.Ser]
+	cp := t.commonPrefix(origCh)
+	cs := t.commonSuffix(origCh, cp)
+	nmid := len(t.ch) - cp - cs
+	join := len(origCh) - cs
+	mid := t.bytesRange(ser, cp, len(t.ch)-cs)
+	tail := whole[offs[join]:]
+	applied := !(cp+cs == len(origCh) && nmid == 0) && !(join >= cp && bytes.Equal(mid, whole[offs[cp]:offs[join]]))
+	if c.Kind == "bytes" || c.Kind == "trunc" {
+		nmid = -1
+	}
+	v := verifyStream(mid, tail, nmid, x.snap[c.Ser][cp], x.snap[c.Ser][join], ser, x.k)
 	// the in-memory loop must agree with the real tool.Verify on a file: checked for every accepted
 	// log and a sample of the rejected ones
-	if v.ok || nth%25 == 0 {
+	if (v.ok && (x.thorough || nth%4 == 0)) || nth%40 == 0 {
 		path := filepath.Join(x.workdir, fmt.Sprintf("tamper-%d.log", worker))
+		data := append(append(append([]byte(nil), whole[:offs[cp]]...), mid...), tail...)
 		if tv := toolVerify(path, data, c.Ser, x.k); tv != v.ok {
 			fatalf("tool.Verify (%v) and the in-memory validation loop (%v, %s) disagree on case %+v", tv, v.ok, v.reason, *c)
 		}
@@ -685,16 +786,22 @@ func runC27(in, outPath, workdir string, seed int64, thorough bool) {
 		fatalf("foreign log has a different length")
 	}
 	// both logs must verify before anything is tampered with
-	x.whole = map[string][]byte{}
+	x.whole, x.off, x.snap = map[string][]byte{}, map[string][]int{}, map[string][]vsnap{}
 	for _, vl := range []*validLog{x.L, x.F} {
 		for _, s := range []string{"bin", "json"} {
 			t := newTlog(vl, s)
 			data := t.bytes(serializerOf(s))
-			if v := verifyStream(data, serializerOf(s), k); !v.ok {
+			if v := verifyStream(data, nil, -1, vsnap{}, vsnap{}, serializerOf(s), k); !v.ok {
 				fatalf("untampered %s log does not verify: %s at %d", s, v.reason, v.failIdx)
 			}
 			if vl == x.L {
 				x.whole[s] = data
+				offs := []int{0}
+				for _, ch := range vl.enc[s] {
+					offs = append(offs, offs[len(offs)-1]+len(ch))
+				}
+				x.off[s] = offs
+				x.snap[s] = snapshots(data, serializerOf(s), k)
 			}
 		}
 	}
